@@ -11,6 +11,9 @@ use pallas_traverse::{Era, MultiEraBlock, MultiEraTx};
 use pallas_txbuilder::{BuildConway, Input, Output, StagingTransaction};
 use pallas_utxorpc::{LedgerContext, TxoRef, UtxoMap};
 
+#[path = "../fixtures/w12_cst.rs"]
+mod cst;
+
 pub const NAME: &str = "u5c";
 
 #[derive(Clone)]
@@ -44,6 +47,34 @@ fn tree_pallas(d: &PlutusData) -> Tree {
         PlutusData::BigInt(b) => Tree::Int(canon_pallas(b)),
         PlutusData::BoundedBytes(b) => Tree::Bytes(b.to_vec()),
     }
+}
+
+/// every item that sits inside a `#6.24(bytes)` wrapper of the wire bytes, cut by the harness's own
+/// concrete-syntax parser (inline datums and script references are carried this way)
+fn wrapped_payloads(n: &cst::Node, out: &mut Vec<Vec<u8>>) {
+    match n {
+        cst::Node::Tag { ai, arg, inner } => {
+            let t = if *ai < 24 { *ai as u64 } else { arg.iter().fold(0u64, |a, b| (a << 8) | *b as u64) };
+            if t == 24 { if let cst::Node::Str { major: 2, payload, .. } = &**inner { out.push(payload.clone()); } }
+            wrapped_payloads(inner, out);
+        }
+        cst::Node::Seq { items, .. } | cst::Node::SeqIndef { items, .. } => for i in items { wrapped_payloads(i, out); },
+        _ => {}
+    }
+}
+/// what the harness itself cuts out of the wire bytes of a transaction: the body span and the wrapped items
+pub struct Wire { pub bytes: Vec<u8>, pub body: Vec<u8>, pub wrapped: Vec<Vec<u8>> }
+fn wire_of(bytes: &[u8]) -> Option<Wire> {
+    let mut d = minicbor::Decoder::new(bytes);
+    d.array().ok()?;
+    let a = d.position();
+    d.skip().ok()?;
+    let b = d.position();
+    let (tree, e) = cst::parse(bytes, 0, 0)?;
+    if e != bytes.len() { return None; }
+    let mut wrapped = vec![];
+    wrapped_payloads(&tree, &mut wrapped);
+    Some(Wire { bytes: bytes.to_vec(), body: bytes[a..b].to_vec(), wrapped })
 }
 
 /// per schema version: canonical views of the generated prost types
@@ -157,6 +188,28 @@ macro_rules! version {
                     t.certificates.len(), w.plutus_datums.iter().map(tree_str).collect::<Vec<_>>().join(" "));
                 (format!("{head} RD ok={}", t.successful as u8), witness_redeemers(&w))
             }
+            /// compare the hash / original-bytes fields of a mapped transaction with the wire bytes the harness cut itself
+            pub fn check_wire(w: &Wire, m: &u5c::Tx, tag: &str, out: &mut Out) {
+                let v = stringify!($ver);
+                if m.hash.as_ref() != &*pallas_crypto::hash::Hasher::<256>::hash(&w.body) {
+                    out.viol(format!("tx-hash-not-of-wire-body version={v}"), tag.to_string());
+                }
+                let outs = m.outputs.iter().chain(m.collateral.iter().flat_map(|c| c.collateral_return.iter()));
+                for (i, o) in outs.enumerate() {
+                    if let Some(d) = &o.datum {
+                        let cbor = datum_cbor_bytes(d);
+                        if !cbor.is_empty() {
+                            if !w.wrapped.iter().any(|p| *p == cbor) { out.viol(format!("datum-original-bytes-not-on-the-wire version={v}"), format!("{tag}: output {i}")); }
+                            if d.hash.as_ref() != &*pallas_crypto::hash::Hasher::<256>::hash(&cbor) {
+                                out.viol(format!("datum-hash-not-of-wire-bytes version={v}"), format!("{tag}: output {i}: {} is not blake2b256 of {}", hex(&d.hash), hex(&cbor)));
+                            }
+                        }
+                    }
+                    if let Some(oc) = output_cbor_bytes(o) {
+                        if !w.bytes.windows(oc.len().max(1)).any(|x| x == &oc[..]) { out.viol(format!("output-original-bytes-not-on-the-wire version={v}"), format!("{tag}: output {i}")); }
+                    }
+                }
+            }
             /// compare a mapped transaction with what pallas-traverse says about the source
             pub fn check_tx(tx: &MultiEraTx, m: &u5c::Tx, tag: &str, out: &mut Out) {
                 let v = stringify!($ver);
@@ -212,6 +265,8 @@ version!(va, v1alpha, {
     }
     pub fn pubkey_of(x: &u5c::native_script::NativeScript) -> Option<Vec<u8>> { match x { u5c::native_script::NativeScript::ScriptPubkey(b) => Some(b.to_vec()), _ => None } }
     pub fn datum_cbor(d: &u5c::Datum) -> String { hex(&d.original_cbor) }
+    pub fn datum_cbor_bytes(d: &u5c::Datum) -> Vec<u8> { d.original_cbor.to_vec() }
+    pub fn output_cbor_bytes(_o: &u5c::TxOutput) -> Option<Vec<u8>> { None }
     pub fn witness_redeemers(_w: &u5c::WitnessSet) -> Option<String> { None }
 });
 version!(vb, v1beta, {
@@ -219,6 +274,8 @@ version!(vb, v1beta, {
     pub fn quantity_bi(x: &u5c::Asset) -> String { bi(&x.quantity) }
     pub fn pubkey_of(x: &u5c::native_script::NativeScript) -> Option<Vec<u8>> { match x { u5c::native_script::NativeScript::ScriptPubkeyHash(b) => Some(b.to_vec()), _ => None } }
     pub fn datum_cbor(d: &u5c::Datum) -> String { d.original_cbor.as_ref().map(|b| hex(b)).unwrap_or("-".into()) }
+    pub fn datum_cbor_bytes(d: &u5c::Datum) -> Vec<u8> { d.original_cbor.as_ref().map(|b| b.to_vec()).unwrap_or_default() }
+    pub fn output_cbor_bytes(o: &u5c::TxOutput) -> Option<Vec<u8>> { o.original_cbor.as_ref().map(|b| b.to_vec()) }
     pub fn witness_redeemers(w: &u5c::WitnessSet) -> Option<String> {
         Some(format!("[{}]", w.redeemers.iter().map(|r| { let e = r.ex_units.clone().unwrap_or_default();
             format!("{}:{}:{}:{}:{}", r.purpose, r.index, e.memory, e.steps, r.payload.as_ref().map(tree_str).unwrap_or("missing".into())) }).collect::<Vec<_>>().join(" ")))
@@ -463,6 +520,12 @@ pub fn run_case(case: &Case, out: &mut Out) {
                         if ha != hb { out.viol("schema-versions-disagree op=map_tx", op[1..bar].join(" ")); }
                         // the independent field-by-field comparison with pallas-traverse
                         with_source_tx(&op[1..bar], |tx| { va::check_tx(tx, &a, &op[1..bar].join(" "), out); vb::check_tx(tx, &b, &op[1..bar].join(" "), out); });
+                        if op[1] == "raw" {
+                            if let Some(w) = unhex(&op[2]).and_then(|raw| wire_of(&raw)) {
+                                va::check_wire(&w, &a, "raw", out); vb::check_wire(&w, &b, "raw", out);
+                                if op.get(3).map(|x| x == "noncanonical").unwrap_or(false) { out.cov("non-canonical-tx"); }
+                            } else { out.viol("harness-cannot-cut-wire", ""); }
+                        }
                         if b.outputs.iter().any(|o| !o.assets.is_empty()) || !b.mint.is_empty() { outside = true; }
                         if !b.outputs.is_empty() && !b.inputs.is_empty() { nested = true; }
                         out.ok(hb.replace(" RD ", &format!(" rd={} ", rdb.unwrap_or_default())));
@@ -640,7 +703,23 @@ pub fn generate(g: &mut Gen) {
             });
         }
         if case % 4 == 0 { ops.push(format!("datum c 121 - 2 i 9223372036854775808 m 1 b 01 a 2 i -18446744073709551616 n {}", hex(&[0xffu8; 9]))); }
-        for _ in 0..2 { if let Some(h) = gen_built(g) { if let Some(l) = txview_line(&format!("raw {h}")) { ops.push(l); } } }
+        for _ in 0..2 {
+            // (`Output::add_asset` adds quantities with an unchecked `+=`: two large amounts of one asset panic under
+            // overflow checks -- C40's staging-overflow outcome, not a mapping matter; such a draw is skipped)
+            if let Some(h) = guard_mut(|| gen_built(g)).flatten() {
+                if let Some(l) = txview_line(&format!("raw {h}")) { ops.push(l); }
+                // the same transaction in legal but non-canonical CBOR: inside the #6.24-wrapped items (inline datums,
+                // script refs) and anywhere else (witness datums, redeemer data, heads, definite <-> indefinite), kept
+                // only if pallas still decodes it
+                let raw = unhex(&h).unwrap();
+                let mut muts: Vec<Vec<u8>> = cst::single_site_mutants(&raw, 6, 2, &mut g.rng);
+                for _ in 0..2 { if let Some((m, _)) = cst::mutant(&raw, &mut g.rng) { muts.push(m); } }
+                for m in muts {
+                    if MultiEraTx::decode_for_era(Era::Conway, &m).is_err() { continue; }
+                    if let Some(l) = guard_mut(|| txview_line(&format!("raw {} noncanonical", hex(&m)))).flatten() { ops.push(l); }
+                }
+            }
+        }
         g.case(ops);
     }
 }
